@@ -416,8 +416,10 @@ def _zone_objects(zid):
 
 def zone_local(zid, inst_secs):
     """UTC offset (seconds) of a zone at a UTC instant, or None when it is not decided: instant outside
-    1980-2019, zone unknown to one of the databases, or the offset is not one and the same from 48 h
-    before to 48 h after in every database consulted."""
+    1980-2019, zone unknown to one of the databases, the databases consulted disagree, or the local
+    wall-clock time of the instant is ambiguous or non-existent in one of them (PEP 495 fold test).
+    Without the compiled copy of the tz database bundled with chrono-tz only the system database is
+    available; then the offset must also be one and the same from 48 h before to 48 h after."""
     zs = _zone_objects(zid)
     if not zs:
         return None
@@ -427,13 +429,54 @@ def zone_local(zid, inst_secs):
         return None
     base = datetime.datetime(1970, 1, 1, tzinfo=datetime.timezone.utc)
     offs = set()
+    deltas = (0,) if _BUNDLED["dir"] else (-48 * 3600, -24 * 3600, 0, 24 * 3600, 48 * 3600)
     for z in zs:
-        for delta in (-48 * 3600, -24 * 3600, 0, 24 * 3600, 48 * 3600):
+        for delta in deltas:
             t = (base + datetime.timedelta(seconds=inst_secs + delta)).astimezone(z)
             offs.add(t.utcoffset())
     if len(offs) != 1:
         return None
-    return int(offs.pop().total_seconds())
+    off = offs.pop()
+    naive = (base + datetime.timedelta(seconds=inst_secs)).replace(tzinfo=None) + off
+    for z in zs:
+        o0 = naive.replace(tzinfo=z, fold=0).utcoffset()
+        o1 = naive.replace(tzinfo=z, fold=1).utcoffset()
+        if o0 != o1 or o0 != off:
+            return None  # ambiguous (fold) or non-existent (gap) local time
+    return int(off.total_seconds())
+
+
+_TRANSITIONS = {}
+
+
+def zone_transitions(zid):
+    """UTC instants (seconds) in 1980-2019 at which the zone's offset changes, in every database consulted (to the second)"""
+    ts = _TRANSITIONS.get(zid)
+    if ts is None:
+        ts = []
+        zs = _zone_objects(zid)
+        if zs:
+            base = datetime.datetime(1970, 1, 1, tzinfo=datetime.timezone.utc)
+            z = zs[0]
+            off_at = lambda sec: (base + datetime.timedelta(seconds=sec)).astimezone(z).utcoffset()
+            day = R.days_from_civil(1980, 1, 5)
+            end = R.days_from_civil(2019, 12, 20)
+            prev = off_at(day * 86400)
+            while day < end:
+                day += 1
+                cur = off_at(day * 86400)
+                if cur != prev:
+                    a, b2 = (day - 1) * 86400, day * 86400
+                    while b2 - a > 1:
+                        mid = (a + b2) // 2
+                        if off_at(mid) == prev:
+                            a = mid
+                        else:
+                            b2 = mid
+                    ts.append(b2)
+                    prev = cur
+        _TRANSITIONS[zid] = ts
+    return ts
 
 
 def render_dt(inst_nanos, zone):
@@ -484,21 +527,32 @@ def run_date_times(rep, rng, quick):
     n = 5000 if quick else 40000
     b = Batch(per_case=8)
     zone_pairs = 0
+    near = 0
     lo80 = R.days_from_civil(1980, 2, 1) * 86400
     hi19 = R.days_from_civil(2019, 12, 1) * 86400
     for k in range(n):
         mode = rng.random()
         local = mode < 0.12
+        near_zid = None
         if mode < 0.6:
             base = rng.randint(lo80, hi19)
             allow_zone = not local
+            if allow_zone and rng.random() < 0.3:
+                # instants within hours of a transition of a named zone (unambiguous local times only: zone_local decides)
+                zid = rng.choice(CURATED_ZONES)
+                ts = zone_transitions(zid)
+                if ts:
+                    near_zid = zid
+                    base = rng.choice(ts) + rng.randint(-15 * 3600, 15 * 3600)
         else:
             y = rng.choice([rng.randint(1000, 9999), rng.randint(1600, 2400), rng.randint(1001, 200000), rng.randint(1000, 9999), rng.randint(262144, R.YEAR_MAX - 1)])
             base = R.days_from_civil(y, rng.randint(1, 12), rng.randint(1, 28)) * 86400 + rng.randint(0, 86399)
             allow_zone = False
         insts = []
         for j in range(3):
-            if j == 0 or rng.random() < 0.75:
+            if near_zid is not None:
+                delta = rng.choice(DELTAS) if rng.random() < 0.3 else rng.randint(-16 * 3600, 16 * 3600) * R.NANOS
+            elif j == 0 or rng.random() < 0.75:
                 delta = rng.choice(DELTAS) if rng.random() < 0.6 else rng.randint(-40 * 86400, 40 * 86400) * R.NANOS + rng.randint(0, R.NANOS - 1)
             elif allow_zone or local:
                 delta = rng.randint(-400 * 86400, 400 * 86400) * R.NANOS
@@ -515,6 +569,11 @@ def run_date_times(rep, rng, quick):
         ops = []
         for inst in insts:
             zone = None if local else rand_zone_spec(rng, inst // R.NANOS, allow_zone)
+            if near_zid is not None and rng.random() < 0.8:
+                noff = zone_local(near_zid, inst // R.NANOS)
+                if noff is not None:
+                    zone = ("zone", near_zid, noff)
+                    near += 1
             fields, text = render_dt(inst, zone)
             if not 1000 <= fields[0] <= R.YEAR_MAX:
                 break
@@ -617,6 +676,7 @@ def run_date_times(rep, rng, quick):
     rep.extra["time_property_groups"] = n_t
     rep.extra["datetime_groups"] = n
     rep.extra["datetime_groups_with_named_zone"] = zone_pairs
+    rep.extra["datetime_operands_within_16h_of_a_zone_transition"] = near
     rep.extra["curated_zones"] = len(CURATED_ZONES)
 
 
@@ -799,7 +859,7 @@ def run(rep, tier, seed):
     )
     rep.assumptions = [
         "proleptic Gregorian day-number arithmetic on unbounded integers (lib/rtemporal.py), cross-checked against datetime/calendar for years 1..9999 at every run",
-        "named zones: instants in 1980-2019 whose UTC offset is one and the same from 48 h before to 48 h after in the system tz database AND in the tz database bundled with chrono-tz 0.6 (2022a, compiled with zic from the crate's sources when available; then every zone id without digits/+/- is used, half of the picks from %d curated zones); without the compiled copy only the curated zones on the system database; everything else with a named zone is not generated" % len(CURATED_ZONES),
+        "named zones: instants in 1980-2019 at which the system tz database AND the tz database bundled with chrono-tz 0.6 (2022a, compiled with zic from the crate's sources) give the same UTC offset and whose local wall-clock time is neither ambiguous nor non-existent in either (PEP 495 fold test); 30%% of the zoned groups are placed within 16 h of a transition of a curated zone (%d curated zones; every zone id without digits/+/- is used otherwise); without the compiled copy only the curated zones on the system database and only instants whose offset is constant from 48 h before to 48 h after; everything else with a named zone is not generated" % len(CURATED_ZONES),
         "date-times are ordered through `between`, `in` and unary tests (the evaluator does not implement `<` for them); local date-times are compared only with local ones, with TZ=UTC in the driver's environment",
         "literal fractions are restricted to digit patterns that survive the implementation's f64 detour (C14 finding lossy:time:fraction-minus-1ns), so that C15 judges the time line, not the literal reader",
         "undecided: year 0000 as a literal; whole months when the later day-of-month is the clipped end of a shorter month (Jan 31 -> Feb 28); results of comparisons with a date-time inside a DST gap or with an offset beyond +-24 h (only panics count there)",
